@@ -217,6 +217,7 @@ CANON = {
     "family_1": [rec(partner=2, spouse=2, gv=True), rec(partner=1, spouse=1, gv=True), rec(age=24, e1=1, e2=2)],
     "family_2": [rec(partner=2, spouse=2, gv=True), rec(partner=1, spouse=1, gv=True), rec(age=24, e1=1, e2=2), rec(age=24, e1=1, e2=2)],
     "family_3": [rec(partner=2, spouse=2, gv=True), rec(partner=1, spouse=1, gv=True)] + [rec(age=24, e1=1, e2=2) for _ in range(3)],
+    "family_6": [rec(partner=2, spouse=2, gv=True), rec(partner=1, spouse=1, gv=True)] + [rec(age=24, e1=1, e2=2) for _ in range(6)],
     "patchwork": [rec(partner=2), rec(partner=1), rec(age=24, e1=1), rec(age=24, e1=2)],
     "stepchild": [rec(partner=2, spouse=2, gv=True), rec(partner=1, spouse=1, gv=True), rec(age=24, e1=2)],
     "three_gen": [rec(age=70), rec(age=40, e1=1), rec(age=24, e1=2)],
